@@ -116,6 +116,10 @@ func InModule(f *ssa.Function) bool {
 		if o := f.Origin(); o != nil && o.Pkg != nil {
 			return strings.HasPrefix(o.Pkg.Pkg.Path(), ModPath)
 		}
+		// synthetic wrappers (bound method closures, thunks) belong to the method's package
+		if obj := f.Object(); obj != nil && obj.Pkg() != nil {
+			return strings.HasPrefix(obj.Pkg().Path(), ModPath)
+		}
 		return false
 	}
 	return strings.HasPrefix(f.Pkg.Pkg.Path(), ModPath)
